@@ -308,6 +308,19 @@ func Special(a int, b int, s string, xs []int) int {
 		return specialHeader() + fmt.Sprintf("var seen int\n\nfunc note(v int) { seen += v + %d }\n\nfunc Special(a int, b int, s string, xs []int) int {\n\tseen = 0\n%s\treturn seen + b\n}\n", k1, arms)
 	}
 	out = append(out, special{Name: "side-effect-in-the-other-arm", Family: "exchanged-branches", P: eff(false), Q: eff(true)})
+	// the order of two calls with side effects exchanged: same data flow, same blocks
+	ord := func(first, second string) string {
+		return specialHeader() + fmt.Sprintf("var trail int\n\nfunc note(v int) { trail = trail*%d + v }\n\nfunc mark(v int) { trail = trail*%d - v }\n\nfunc Special(a int, b int, s string, xs []int) int {\n\ttrail = 1\n\t%s\n\t%s\n\treturn trail + len(s)\n}\n", k1+2, k2+1, first, second)
+	}
+	out = append(out, special{Name: "order-of-two-effects-exchanged", Family: "exchanged-branches", P: ord("note(a)", "mark(b)"), Q: ord("mark(b)", "note(a)")})
+	// a division that can panic moved behind a call with an effect
+	// the exit value of one of two sibling inner counters (same start and step, different bounds) carried
+	// into the next iteration of the outer loop: it reaches the text only as an operand of the OUTER
+	// header's phi, which is printed before the inner headers
+	carried := func(which string) string {
+		return specialHeader() + fmt.Sprintf("func Special(a int, b int, s string, xs []int) int {\n\tn, m := len(xs)+%d, len(s)+1\n\tlast, total := 0, 0\n\tfor i := 0; i < n; i++ {\n\t\ttotal += last\n\t\tj := 0\n\t\tfor ; j < n; j++ {\n\t\t\ttotal += i ^ j\n\t\t}\n\t\tk := 0\n\t\tfor ; k < m; k++ {\n\t\t\ttotal -= k & i\n\t\t}\n\t\tlast = %s\n\t}\n\treturn total*%d + a\n}\n", k1, which, k2)
+	}
+	out = append(out, special{Name: "exit-value-of-sibling-counter-carried", Family: "nested-iv", P: carried("j"), Q: carried("k")})
 	// 12. two counters of one loop with the same start and step but different integer types: the narrow
 	// one wraps after 256 iterations
 	wrapx := func(idx string) string {
